@@ -1,5 +1,7 @@
 import GB.Base.Proto
 import GB.C11.Model
+import GB.C11.Fine
+import GB.C11.Methods
 import GB.Generated.Facts
 /-
   C11 driver: trace validation.  One case line =
@@ -177,27 +179,42 @@ inductive Park
   | hook (n : Nat) | blocked | done (r : Res) | stuck
 deriving Repr, DecidableEq, Inhabited
 
-/-- run thread `tid` until it parks: after executing a `hook`, when its next statement is disabled, or
-    when its program is finished -/
-def runToPark (P : Progs) : Nat → State → Tid → State × Park
+/-- Run thread `tid` of the FINE LTS until it parks: after executing a `hook`, when its next statement is
+    disabled, when its program is finished — and, when `fine` (input kind `F`: the harness also parks at the
+    per-iteration yield points), inside the per-service loops: before every iteration of the add loop
+    (`service.update.addIter` = 4) and after every release of the delete loop (`service.update.delIter` = 5) and
+    of removeTarget (`service.remove.iter` = 6). With `fine = false` the loops run through without parking. -/
+def runToPark (P : Progs) (fine : Bool) : Nat → FState → Tid → FState × Park
   | 0, s, _ => (s, .stuck)
   | fuel + 1, s, tid =>
-    match s.threads tid with
+    match s.base.threads tid with
     | none => (s, .stuck)
     | some th =>
       match th.code with
-      | [] => (s, .done th.res)
+      | [] => (s, .done (s.resOf tid th))
       | i :: _ =>
-        match step P s (.tau tid) with
+        match fstep P s (.tau tid) with
         | none => (s, .blocked)
         | some s' =>
           -- after an early return the yield points are not reached any more
           match i, th.skip with
           | .hook n, false => (s', .hook n)
-          | _, _ => runToPark P fuel s' tid
+          | _, _ =>
+            match s'.loop with
+            | some L =>
+              if fine && L.t = tid then
+                match L.kind with
+                | .add => if L.todo.isEmpty then runToPark P fine fuel s' tid else (s', .hook 4)
+                | .del => if L.done.isEmpty then runToPark P fine fuel s' tid else (s', .hook 5)
+                | .rem => if L.done.isEmpty then runToPark P fine fuel s' tid else (s', .hook 6)
+              else runToPark P fine fuel s' tid
+            | none => runToPark P fine fuel s' tid
 
 structure Cand where
-  s : State
+  s : FState
+  /-- kind `M` (pattern router, two HTTP methods): `s` is the POST component, `g` the GET component of the
+      per-method LTS (`GB.C11.MStep`, lockstep) -/
+  g : Option FState := none
   cur : List (Nat × Tid) := []     -- harness thread → model thread of its current operation
   nops : List (Nat × Nat) := []    -- harness thread → number of operations started
 deriving Inhabited
@@ -207,9 +224,15 @@ def Cand.tid (c : Cand) (t : Nat) : Option Tid := c.cur.lookup t
 def Cand.start (P : Progs) (c : Cand) (t : Nat) (op : Op) : Option Cand :=
   let n := (c.nops.lookup t).getD 0
   let tid := t * 64 + n
-  match step P c.s (.spawn tid op) with
-  | none => none
-  | some s' => some { s := s', cur := (t, tid) :: c.cur.filter (·.1 ≠ t), nops := (t, n + 1) :: c.nops.filter (·.1 ≠ t) }
+  match c.g with
+  | none =>
+    match fstep P c.s (.spawn tid op) with
+    | none => none
+    | some s' => some { s := s', cur := (t, tid) :: c.cur.filter (·.1 ≠ t), nops := (t, n + 1) :: c.nops.filter (·.1 ≠ t) }
+  | some g =>
+    match mstep2 P { post := c.s, get := g } (.spawn tid op) with
+    | none => none
+    | some m => some { s := m.post, g := some m.get, cur := (t, tid) :: c.cur.filter (·.1 ≠ t), nops := (t, n + 1) :: c.nops.filter (·.1 ≠ t) }
 
 def matchEv (issued : List Issued) (p : Park) (e : Ev) : Bool :=
   match p, e with
@@ -229,12 +252,28 @@ def showPark : Park → String
   | .done .miss => "miss" | .done (.hit e) => s!"hit(v{e.desc.ver},w{e.owner})" | .done .pending => "pending"
 
 /-- advance thread `t` of candidate `c` one macro step and compare with the observed event -/
-def Cand.advance (P : Progs) (issued : List Issued) (c : Cand) (e : Ev) : Except String Cand :=
+def Cand.advance (P : Progs) (fine : Bool) (issued : List Issued) (c : Cand) (e : Ev) : Except String Cand :=
   match c.tid e.thread with
   | none => .error "no-op"
   | some tid =>
-    let (s', p) := runToPark P 64 c.s tid
-    if matchEv issued p e then .ok { c with s := s' } else .error (showPark p)
+    let (s', p) := runToPark P fine 160 c.s tid
+    match c.g with
+    | none => if matchEv issued p e then .ok { c with s := s' } else .error (showPark p)
+    | some g =>
+      -- per-method LTS: both method components take the same macro step; they must park alike (the control
+      -- flow does not depend on the tables); a lookup is answered by the component of its key's method
+      let (g', p2) := runToPark P fine 160 g tid
+      let getAnswers := match g.base.threads tid with
+        | some th => (match th.op with | .lookupP k => mOf2 k == 0 | _ => false)
+        | none => false
+      let coherent := match p, p2 with
+        | .done (.hit _), .done .miss => !getAnswers
+        | .done .miss, .done (.hit _) => getAnswers
+        | a, b => a == b
+      if !coherent then .error s!"method components park differently: {showPark p} / {showPark p2}"
+      else
+        let pj := if getAnswers then p2 else p
+        if matchEv issued pj e then .ok { c with s := s', g := some g' } else .error (showPark pj)
 
 def insertAll (x : Ev) : List Ev → List (List Ev)
   | [] => [[x]]
@@ -257,7 +296,7 @@ def opOfStart : Ev → Option Op
   | .startL _ _ => none   -- filled by kind
   | _ => none
 
-def Cand.round (P : Progs) (svc : Bool) (issued : List Issued) (c : Cand) (r : Round) : List Cand × String :=
+def Cand.round (P : Progs) (svc fine : Bool) (issued : List Issued) (c : Cand) (r : Round) : List Cand × String :=
   -- 1. spawn
   let c1 : Except String Cand :=
     match r.start with
@@ -275,13 +314,13 @@ def Cand.round (P : Progs) (svc : Bool) (issued : List Issued) (c : Cand) (r : R
     let c2 : Except String Cand :=
       match own with
       | [] => .ok c1
-      | [e] => c1.advance P issued e
+      | [e] => c1.advance P fine issued e
       | _ => .error "two own events"
     match c2 with
     | .error e => ([], s!"t{r.t}:model={e}")
     | .ok c2 =>
       if woken.length > 4 then ([], "too many woken") else
-      let res := (perms woken).map (fun order => order.foldlM (fun c e => c.advance P issued e) c2)
+      let res := (perms woken).map (fun order => order.foldlM (fun c e => c.advance P fine issued e) c2)
       let oks := res.filterMap (fun x => match x with | .ok c => some c | .error _ => none)
       let err := res.findSome? (fun x => match x with | .error e => some e | .ok _ => none)
       (oks, s!"woken:model={err.getD ""}")
@@ -316,14 +355,14 @@ def replayProgs (svc : Bool) : Progs :=
   if g.wf then g
   else { (if svc then serviceProgs else patternProgs) with storeSame := Generated.c11ServiceStoreSame }
 
-def replay (P : Progs) (svc : Bool) (issued : List Issued) : List Round → Nat → List Cand → Option String
+def replay (P : Progs) (svc fine : Bool) (issued : List Issued) : List Round → Nat → List Cand → Option String
   | [], _, _ => none
   | r :: rs, k, cands =>
-    let nexts := cands.map (fun c => c.round P svc issued r)
+    let nexts := cands.map (fun c => c.round P svc fine issued r)
     let alive := (nexts.flatMap (·.1)).take 32
     if alive.isEmpty then
       some s!"round={k} {(nexts.head?.map (·.2)).getD ""}"
-    else replay P svc issued rs (k + 1) alive
+    else replay P svc fine issued rs (k + 1) alive
 
 /-- `key=value` counters of an uncontrolled stress line -/
 def kvNat (out : List String) (key : String) : Option Nat :=
@@ -382,8 +421,11 @@ def handleStress (mode : String) (out : List String) : String :=
 def handle : Handler
   | "stress" :: mode :: _, out => handleStress mode out
   | kind :: _, out =>
-    if kind ≠ "P" && kind ≠ "S" then "BAD kind" else
-    let svc := kind = "S"
+    if kind ≠ "P" && kind ≠ "S" && kind ≠ "F" && kind ≠ "M" then "BAD kind" else
+    -- kind M = the pattern router with two HTTP methods (even keys: GET bindings, odd keys: default POST)
+    -- kind F = the service router with the harness parking at the per-iteration yield points as well
+    let svc := kind = "S" || kind = "F"
+    let fine := kind = "F"
     match out.mapM parseEv with
     | none => s!"BAD token"
     | some evs =>
@@ -398,7 +440,7 @@ def handle : Handler
       match st.viol with
       | some why => s!"VIOL {why}"
       | none =>
-        match replay (replayProgs svc) svc st.issued rounds 0 [{ s := init }] with
+        match replay (replayProgs svc) svc fine st.issued rounds 0 [{ s := finit, g := if kind = "M" then some finit else none }] with
         | some why => s!"DIFF model-rejects-trace {why}"
         | none => s!"OK{tags}"
   | _, _ => "BAD c11 line"
